@@ -20,7 +20,15 @@ import (
 )
 
 const verifDir = "/verif"
-const repoDir = "/repo"
+
+// repoDir is /repo; SIM_REPO overrides it only for runs against seeded defects that
+// were written for an earlier commit of /repo (tools/seeded.sh uses a scratch worktree then).
+var repoDir = func() string {
+	if v := os.Getenv("SIM_REPO"); v != "" {
+		return v
+	}
+	return "/repo"
+}()
 
 // A Mode is one way of exploring a property (sequential refinement runs,
 // concurrent batches, crash sweeps, …). Each mode maps a seed to one report.
